@@ -85,10 +85,13 @@ class ReaderInit(Contract):
     two_d = False
     preload = False
     irregular = False
+    fault = False            # C17/C18: any range read may fail or come back short (a truncated file is one such environment)
     may_raise = ()
 
     def inputs(self, c):
         prog = c.ex.prog
+        if self.fault:
+            c.ghost['io_mode'] = 'faulty'
         g = O.mk_geo(c, 'general', self.two_d, cfg=self.cfg)
         f = IO.new_file(BM.K_FILE, 'rb', '<sgz>')
         me = SObj(prog.klass('SgzReader'), {})
@@ -117,7 +120,10 @@ class ReaderInit(Contract):
 
     def may_raise_at(self, c, a):
         # preload refuses volumes larger than the machine memory (environment): RuntimeError
-        return ('RuntimeError',) if self.preload else ()
+        r = ('RuntimeError',) if self.preload else ()
+        if self.fault:
+            r = r + ('OSError',)          # a failed / short header or preload read surfaces as OSError (check_range_length)
+        return r
 
     def post(self, c, a, result):
         me, g = a['self'], a['_g']
@@ -188,6 +194,8 @@ class ReaderInit(Contract):
                     c.ensure(eq(cv.length, mul(BLK, g.diskblocks)) and mk_bool(z3.And(tt.zk() == BM.K_FILE, tt.zo() == zint(add(2 * BLK, qq)))), 'loader.preload_bytes_are_the_data_section')
             else:
                 c.ensure(mk_bool(cv is None), 'loader.no_preload')
+        if self.fault:
+            c.ensure(mk_bool(not c.ghost.get('fault')), 'fault.normal_return_implies_every_read_succeeded', kind='ghost')
         # open cost: the header, twice at most (first block, then both), plus the data section when preloading
         evs = c.ghost.get('reads', [])
         c.ensure(mk_bool(len(evs) == (3 if self.preload else 2)), 'reads.header_block_then_both_header_blocks', kind='ghost')
@@ -204,3 +212,7 @@ for _cfg in _c3:
 for _cfg in (ALL2[0], ALL2[2], [c_ for c_ in ALL2 if c_[1][1] == 16][0]):
     nm = f'{_cfg[0]}@{"x".join(map(str, _cfg[1]))},2d'
     fuc(RI + '__init__', props=['C09', 'C03', 'C05', 'C15', 'C18'])(type('ReaderInit2d', (ReaderInit,), dict(cfg=_cfg, two_d=True, variant=nm)))
+
+for _cfg, _pre, _2d in ((CFG_DEFAULT[3], False, False), (CFG_DEFAULT[3], True, False), (ALL2[0], False, True)):
+    nm = f'{_cfg[0]}@{"x".join(map(str, _cfg[1]))}' + (',preload' if _pre else '') + (',2d' if _2d else '') + ',fault'
+    fuc(RI + '__init__', props=['C17', 'C18'])(type('ReaderInitFault', (ReaderInit,), dict(cfg=_cfg, preload=_pre, two_d=_2d, fault=True, variant=nm)))
